@@ -6,6 +6,7 @@ pub mod c04;
 pub mod c05;
 pub mod c06;
 pub mod c07;
+pub mod c08;
 pub mod c09;
 pub mod c10;
 pub mod c11;
@@ -25,6 +26,7 @@ pub fn all() -> Vec<&'static PropDef> {
         &c05::PROP,
         &c06::PROP,
         &c07::PROP,
+        &c08::PROP,
         &c09::PROP,
         &c10::PROP,
         &c11::PROP,
